@@ -75,6 +75,7 @@ def generate(seed, tier):
             op["ns"] = g.pick(nss)
             op["override"] = g.chance(0.6)
             op["replace"] = g.chance(0.35)
+            op["as"] = g.choice(["URIRef", "URIRef", "str", "Namespace", "subclass"])
             if asked and g.chance(0.35):
                 # aim: a namespace that an IRI asked about earlier falls into (its memoised answer must not survive the change)
                 _, iri0 = g.pick(asked)
@@ -117,7 +118,11 @@ def nontrivial(trace, res):
 def execute(trace, ctx):
     from rdflib import Graph
     from rdflib.plugins.stores.memory import Memory, SimpleMemory
+    from rdflib.namespace import Namespace
     from rdflib.term import URIRef
+
+    class _IriSubclass(URIRef):
+        """an IRI of a more specific kind (as rdflib's own Genid / RDFLibGenid are)"""
 
     cfg = trace["config"]
     store = Memory() if cfg["store"] == "memory" else SimpleMemory()
@@ -184,7 +189,9 @@ def execute(trace, ctx):
                 ctx.probe("empty-prefix-bound")
             if cur_ns is not None and str(cur_ns) != ns and not op["replace"]:
                 ctx.probe("prefix-collision-numbered")
-            g.bind(pfx, URIRef(ns), override=op["override"], replace=op["replace"])
+            # the namespace may be handed over as a plain URIRef, a str, a Namespace or an instance of a URIRef subclass
+            nsarg = {"str": ns, "Namespace": Namespace(ns), "subclass": _IriSubclass(ns)}.get(op.get("as"), URIRef(ns))
+            g.bind(pfx, nsarg, override=op["override"], replace=op["replace"])
             last_bind_by[0] = h
         elif k in ("qname", "curie", "curie-nogen", "compute_qname", "compute_qname-nogen", "qname_strict", "normalizeUri", "n3"):
             iri = op["iri"]
